@@ -74,8 +74,13 @@ def gen_plan(ch: Chooser, tier: str) -> dict[str, Any]:
         for step in h.get('script', []):
             if step.get('do') == 'temp':
                 step['message'] = ch.choice(['сбой ☃', 'x' * 200, 'line1\nline2', '"quoted" \\ back'])
+        sub_ids: set[str] = set()
         for sub in h.get('subs', []):
-            sub['id'] = _gen_id(ch, family)[:ch.int(1, 120)] + 'e'
+            sid = _gen_id(ch, family)[:ch.int(1, 120)] + 'e'
+            while sid in sub_ids:   # siblings must differ, as functions of one parent do
+                sid += 'e'
+            sub_ids.add(sid)
+            sub['id'] = sid
     st = ch.choice([None, {'progress': 'annotations'}, {'progress': 'annotations', 'v1': False},
                     {'progress': 'smart'}, {'progress': 'status', 'diffbase': 'status'},
                     {'progress': 'annotations', 'prefix': 'ops.example.com'},
